@@ -9,6 +9,9 @@ CHECKS = {
  "C01": ("reference-model monitor over generated hostile positions (runtime oracle)",
          "Every Layer::hash result of a generated workload (millions of positions x 30 depths, aimed at seams, borders +-ulps, poles, |lon|>=2pi) is judged by an independent HEALPix projection model: in range, point inside-or-on the returned cell within 1e-5 of a depth-29 cell, bad latitudes panic. Held-on-explored, not a proof.",
          "trusted: harness/src/refm.rs reference projection (cross-checked with mpmath), catch_unwind sees all panics", "DESIGN.md §4 C01"),
+ "C03": ("reference-model + round-trip monitors over exhaustive small depths and class-sampled deep depths (runtime oracle)",
+         "Every accessor result (centre, sph_coo, 3 vertex accessors, edge/side paths, grids, hash_with_dxdy) for all cells of depths <= 5/8 and class-sampled cells up to depth 29, plus hash_with_dxdy on the hostile position set x 30 depths, is judged against the independent cell geometry and by hashing back; bad cell numbers must panic.",
+         "trusted: refm.rs geometry; Layer::hash as point locator for inward-nudged points (judged by C01)", "DESIGN.md §4 C03"),
  "C17": ("reference-model monitor (independent Calabretta-Roukema formulae) + round-trip monitors, both directions",
          "proj/unproj/base_cell_from_proj_coo outputs for millions of generated sphere positions and plane points (facet boundaries, |y| in {1,2}, poles +-ulps, negative and >2pi longitudes) are judged against an independent projection model, round-trips and range/sign rules; out-of-range arguments must panic.",
          "trusted: refm.rs reference projection (cross-checked with mpmath); a facet-boundary point has two admissible images, either is accepted", "DESIGN.md §4 C17"),
